@@ -97,6 +97,7 @@ def evsOfRpc (kind client cls : String) (cmd ans : List String) : List Ev :=
         let isErr := ans.headD "" != "ok"
         let ttl := ((ans.getD 1 "").splitOn "=").getD 1 "0" |>.toNat? |>.getD 0
         let cts := ((ans.getD 2 "").splitOn "=").getD 1 "0" |>.toNat? |>.getD 0
+        let act := ((ans.getD 3 "").splitOn "=").getD 1 "0" |>.toNat? |>.getD 0
         -- an async primary reports its min_commit_ts (token `mincommit=` after `async=1`)
         let asyncMC : List Ev :=
           if answered && ans.contains "async=1" then
@@ -104,11 +105,17 @@ def evsOfRpc (kind client cls : String) (cmd ans : List String) : List Ev :=
             | some mcv => [Ev.secAnswer client lt [mcv] false 0]
             | none => []
           else []
-        [Ev.status client fate p lt cs cur (rb == "1") answered ttl cts isErr] ++ asyncMC
+        [Ev.status client fate p lt cs cur (rb == "1") answered ttl cts isErr act] ++ asyncMC
       | _, _, _, _ => []
+    | ["plock", p, st, _fu, _ttl, _mc, _flags, ms] =>
+      match hx p, st.toNat? with
+      | some p, some st =>
+        [Ev.plock client fate st p ((parseMutTriples ms).map (·.1)) (answered && (ans.headD "") == "errs=-")]
+      | _, _ => []
     | ["checksecondary", _ks, st] =>
       match st.toNat? with
       | some st =>
+        [Ev.secCheck client st] ++
         if answered && ans.headD "" == "ok" then
           let locksTok := (ans.find? (·.startsWith "locks=")).map (fun t => (t.drop 6).toString) |>.getD "-"
           let cts := (ans.find? (·.startsWith "commit=")).bind (fun t => (t.drop 7).toString.toNat?) |>.getD 0
@@ -258,6 +265,83 @@ def toldCheck (j : JState) : Option String :=
 
 def firstSome (l : List (Option String)) : Option String := l.findSome? id
 
+/-- C01 (locking read): a `lock` call that names its for-update ts (`fu=<sel>:<ts>`, HUB.md) and returns values or
+    existence returns the newest committed value at that ts — at the conflict ts for a key locked with conflict.
+    A key the transaction had locked before (`k=?`) returns nothing and is not judged. -/
+def lockReadCheck (st : Store) (args tail : List String) : Option String :=
+  match args.find? (·.startsWith "fu="), tail with
+  | some fuTok, ["ok", res] =>
+    match ((fuTok.splitOn ":").getD 1 "").toNat? with
+    | some fu =>
+      (splitList res).findSome? fun p =>
+        match p.splitOn "=" with
+        | [k, v] =>
+          let (v0, cts) := match v.splitOn "!" with
+            | [a, c] => (a, c.toNat?.getD 0)
+            | _ => (v, 0)
+          let ts := max fu cts
+          match hx k with
+          | some kb =>
+            let vis := (visible st kb ts).filter (!·.isEmpty)
+            let bad := if v0 == "?" then false
+              else if v0 == "+" then vis.isNone
+              else if v0 == "-" then vis.isSome
+              else optVal v0 != vis
+            if bad then some s!"C01 locking read of {k} at for-update ts {ts} returned {v0} but the newest committed value is {optBytes vis}"
+            else none
+          | none => none
+        | _ => none
+    | none => none
+  | _, _ => none
+
+def showKVs (l : List (Bytes × Bytes)) : String := showList (l.map fun (k, v) => s!"{hexOrTilde k}={hexOrTilde v}")
+
+/-- C05: a snapshot read through any access path (`snapget` / `snapbget` / `snapiter` / `snapriter`, HUB.md) returns what
+    the model store shows at the timestamp the call carries (the snapshot's timestamp in force); `some msg` = it does not.
+    Calls that ended with an error other than `notfound` are not judged. -/
+def snapCheck (st : Store) (call : String) (args tail : List String) : Option String :=
+  let vis (k : Bytes) (ts : Nat) : Option Bytes := (visible st k ts).filter (!·.isEmpty)
+  let opts := (args.getLast?.getD "").splitOn ","
+  let keyOnly := opts.contains "ko=1"
+  match call, args with
+  | "snapget", [ts, k, _] =>
+    match ts.toNat?, hx k with
+    | some ts, some k =>
+      let got : Option (Option Bytes) :=
+        if tail == ["err", "notfound"] then some none
+        else if tail.headD "" == "ok" then some ((optVal (tail.getD 1 "~")).filter (!·.isEmpty)) else none
+      match got with
+      | some g => if g == vis k ts then none
+          else some s!"C05 snapget of {hexOrTilde k} at {ts} returned {optBytes g} but the snapshot shows {optBytes (vis k ts)}"
+      | none => none
+    | _, _ => none
+  | "snapbget", [ts, ks, _] =>
+    match ts.toNat?, parseHexList ks with
+    | some ts, some ks =>
+      if tail.headD "" != "ok" then none
+      else
+        let got := parseKVs (tail.getD 1 "-")
+        let exp := ks.eraseDups.filterMap fun k => (vis k ts).map fun v => (k, v)
+        if got.all (fun p => exp.contains p) && exp.all (fun p => got.contains p) then none
+        else some s!"C05 snapbget at {ts} returned {showKVs got} but the snapshot shows {showKVs exp}"
+    | _, _ => none
+  | c, [ts, lo, hi, lim, _] =>
+    if c != "snapiter" && c != "snapriter" then none
+    else match ts.toNat?, hx lo, hx hi, lim.toNat? with
+    | some ts, some lo, some hi, some lim =>
+      if tail.headD "" != "ok" then none
+      else
+        let got := parseKVs (tail.getD 1 "-")
+        let all := (snapRange st lo hi ts).filter (!·.2.isEmpty)
+        let dir := if c == "snapriter" then all.reverse else all
+        let exp := if lim == 0 then dir else dir.take lim
+        -- key only: the store may omit the values (the stores of both profiles do not)
+        let same := if keyOnly then got.map (·.1) == exp.map (·.1) && got.all (fun p => p.2.isEmpty || exp.contains p) else got == exp
+        if same then none
+        else some s!"C05 {c} [{hexOrTilde lo},{hexOrTilde hi}) limit {lim} at {ts} returned {showKVs got} but the snapshot shows {showKVs exp}"
+    | _, _, _, _ => none
+  | _, _ => none
+
 def step (j : JState) (line : String) : JState × String :=
   match words line with
   | ["reset"] => ({}, "ok")
@@ -384,7 +468,8 @@ def step (j : JState) (line : String) : JState × String :=
                 let absent (k : Bytes) : Bool := (tail.getD 1 "-").splitOn "," |>.any fun p => p == hexOrTilde k ++ "=~"
                 let _ := got
                 let locked := if onlyIfExists then ks.filter (fun k => !absent k) else ks
-                monEv { j1 with pessLocked := locked.map (fun k => (st, k)) ++ j1.pessLocked } [.bufLock p.client st locked] none
+                monEv { j1 with pessLocked := locked.map (fun k => (st, k)) ++ j1.pessLocked } [.bufLock p.client st locked]
+                  (lockReadCheck j1.store p.args tail)
               else (j1, "ok")
             | none => (j1, "ok")
           | "aggstart", _ => monEv j1 [.relaxLocks p.client st] none
@@ -401,7 +486,12 @@ def step (j : JState) (line : String) : JState × String :=
               | _ => j2
             monEv j3 [.ended p.client st] none
           | "rollback", _ => monEv j1 [.ended p.client st] none
-          | _, _ => (j1, "ok")
+          | c, _ =>
+            if c.startsWith "snap" then
+              match snapCheck j1.store c p.args tail with
+              | some f => (j1, s!"FAIL {f}")
+              | none => (j1, "ok")
+            else (j1, "ok")
     else (j, "ok")
   | ["crash", client] => ({ j with crashed := client :: j.crashed }, "ok")
   | ["quiesce"] =>
@@ -427,6 +517,23 @@ def step (j : JState) (line : String) : JState × String :=
       match bad with
       | some (k, _, t) => (j, s!"FAIL C06 lock of finished transaction {t} left on {hexOrTilde k}")
       | none => (j, "ok")
+  | ["audit", "heartbeat", st, atLeast] =>
+    -- C04 rule 6 (liveness half): the harness kept this pessimistic transaction open, with a key locked, until a
+    -- heart-beat was due several times over (wall clock); the trace must show at least `atLeast` heart-beats of it
+    match st.toNat?, atLeast.toNat? with
+    | some st, some n =>
+      let have_ := match j.mon.find st with | some t => t.beats | none => 0
+      if have_ ≥ n then (j, "ok")
+      else (j, s!"FAIL C04 rule6 transaction {st} was kept open over several heart-beat periods with a key locked but sent {have_} heart-beats")
+    | _, _ => (j, "MISMATCH malformed-event")
+  | ["audit", "held", st, ks] =>
+    -- C01: the client reports these keys as locked by its open transaction: the store must hold its lock on each
+    match st.toNat?, parseHexList ks with
+    | some st, some ks =>
+      match ks.find? fun k => !((getEntry j.store.kv k).lock.any (·.startTS == st)) with
+      | some k => (j, s!"FAIL C01 transaction {st} reports {hexOrTilde k} as locked but the store holds no lock of it there")
+      | none => (j, "ok")
+    | _, _ => (j, "MISMATCH malformed-event")
   | ["audit", "nolocks", st] =>
     match st.toNat? with
     | some st =>
